@@ -391,6 +391,11 @@ func (w *world) verifyAll(signed, final, links string) {
 		over = w.signLayoutOver(w.layout, "over-shorter", w.cfg.LayoutSigners, []byte("{}\n"))
 		scs = append(scs, scenario{name: "alt:layout-signed-over-shorter-file", certain: "0", layout: over})
 	}
+	// layouts carrying two signature entries per key id: `verify` agrees with the library on them
+	w.dupLayouts = w.duplicateKeyidLayouts()
+	for _, name := range lib.SortedKeys(w.dupLayouts) {
+		scs = append(scs, scenario{name: "alt:layout-duplicate-keyid-" + name, certain: "", layout: w.dupLayouts[name]})
+	}
 	for i, sc := range scs {
 		w.verifyOne(i, sc, signed, final, links)
 	}
@@ -472,10 +477,17 @@ func (w *world) verifyOne(i int, sc scenario, signed, final, links string) {
 				panic(err)
 			}
 		}
-		s := sideT{cwd: cwd, layoutArg: "../" + ln, linkArg: "../" + ld + slash}
+		if cfg.DirVia != "" {
+			makeVia(parent, ld)
+		}
+		if cfg.DirVia == "symlink-slash" {
+			slash = "/"
+		}
+		spelled := viaName(cfg.DirVia, ld, wd)
+		s := sideT{cwd: cwd, layoutArg: "../" + ln, linkArg: "../" + spelled + slash}
 		if cfg.AbsPaths {
 			s.layoutArg = filepath.Join(parent, ln)
-			s.linkArg = filepath.Join(parent, ld) + slash
+			s.linkArg = parent + "/" + spelled + slash
 		}
 		switch sc.linkDirOverride {
 		case "missing":
@@ -563,8 +575,74 @@ func libSignVerify(file, keyFile string) string {
 	})
 }
 
+// reverseSignatures reverses the order of the signature entries of a metadata file
+func reverseSignatures(path string) {
+	b, err := os.ReadFile(path)
+	if err != nil {
+		return
+	}
+	var obj map[string]any
+	if json.Unmarshal(b, &obj) != nil {
+		return
+	}
+	if sigs, ok := obj["signatures"].([]any); ok {
+		for i, j := 0, len(sigs)-1; i < j; i, j = i+1, j-1 {
+			sigs[i], sigs[j] = sigs[j], sigs[i]
+		}
+	}
+	nb, _ := json.MarshalIndent(obj, "", "  ")
+	os.WriteFile(path, nb, 0o644)
+}
+
+// duplicateKeyidLayouts: the honest layout signed with `sign`, a signed field edited, signed again with
+// the same key(s): `sign` appends, so the file carries two entries per key id, the stale one first; and
+// the same file with the entries reversed by hand. Legacy and DSSE. Returns name -> path.
+func (w *world) duplicateKeyidLayouts() map[string]string {
+	dir := filepath.Join(w.root, "layouts")
+	out := map[string]string{}
+	for _, dsse := range []bool{false, true} {
+		wn := wrapperName(dsse)
+		unsigned := filepath.Join(dir, "dup-"+wn+".unsigned.layout")
+		file := filepath.Join(dir, "dup-"+wn+"-stale-first.layout")
+		if err := dumpUnsigned(w.layout, dsse, unsigned); err != nil {
+			panic(err)
+		}
+		for round := 0; round < 2; round++ {
+			for i, s := range w.cfg.LayoutSigners {
+				k := w.poolKey(s)
+				var inv Invocation
+				if round == 0 && i == 0 {
+					inv = w.cli(dir, "sign", "-f", filepath.Base(unsigned), "-k", k.keyFile, "-o", filepath.Base(file))
+				} else {
+					inv = w.cli(dir, "sign", "-f", filepath.Base(file), "-k", k.keyFile)
+				}
+				w.put("sign/duplicate-keyid", fmt.Sprintf("sign %s layout, round %d, key %s", wn, round+1, s), &inv, "", "exit="+exitClass(inv.Exit), "exit=0", "")
+			}
+			if round == 0 {
+				editMetadata(file, func(pl map[string]any) { pl["readme"] = "revised after the first signature" })
+			}
+		}
+		out[wn+"-stale-first"] = file
+		swapped := filepath.Join(dir, "dup-"+wn+"-fresh-first.layout")
+		copyFile(file, swapped)
+		reverseSignatures(swapped)
+		out[wn+"-fresh-first"] = swapped
+	}
+	return out
+}
+
 func (w *world) signVerifyCases(signed string) {
 	dir := filepath.Join(w.root, "layouts")
+	// duplicate key ids: `sign --verify` answers what the library's VerifySignature answers on the same file
+	for _, name := range lib.SortedKeys(w.dupLayouts) {
+		for _, s := range w.cfg.LayoutSigners {
+			f := w.dupLayouts[name]
+			inv := w.cli(dir, "sign", "-f", f, "-k", w.pubFile(s), "--verify")
+			lr := libSignVerify(f, w.pubFile(s))
+			w.put("sign-verify/duplicate-keyid", "sign --verify on "+name+" with "+s, &inv, lr,
+				fmt.Sprintf("cli=%s lib=%s", exitClass(inv.Exit), lr), fmt.Sprintf("cli=%s lib=%s", lr, lr), "")
+		}
+	}
 	type sv struct {
 		what, file, key, truth string
 	}
